@@ -19,7 +19,7 @@ RULE = (
     "brew() on generated tables: folds 2..6 x 1..3 jointly modelled files x spectrum key of 1..4 columns x "
     "subset_max_train {None, small, ~half, > data} x max_workers {1,2,3,8} with seeded delays inside fit/score x "
     "learners {linear, svc (decision_function); knn, tree, onetree (predict_proba only)} x text/Parquet x prediction / "
-    "training-read chunk sizes {default, n-1, n/2+1, n/3, 7, n/5}. Judged "
+    "training-read chunk sizes {default, n-1, n/2+1, n/3, 7, n/5}; in half of the tables 50..80% of the spectra share file, scan and retention time with a neighbour and differ only in the last key column (charge hypotheses). Judged "
     "from the estimator log: model count, every row scored exactly once, spectrum-closed folds, training rows "
     "disjoint from (and sharing no spectrum with) the rows the same model later scored, cap respected, returned "
     "score = (affine image of) the recorded output of the row's fold model. Non-trivial = spectra with "
